@@ -208,13 +208,15 @@ PLANS["C16"] = c16_plan
 def c13_plan(ctx, tier):
     import vcheck_race
     q = tier == "quick"
+    # measured: two calls over the family are 260 k states; three calls are > 10 M even over three recipes and three documents of
+    # three tokens, so both tiers explore two calls exhaustively and the thorough tier puts its extra effort into the stress run
     ctx.mc_replay("conc", "MC_Conc.tla", "MC_Conc.cfg", "fam_conc.json", ["C13"], replaycmd="replayconc",
-                  consts={"K": 2 if q else 3}, workers=8, timeout=3400)
+                  consts={"K": 2}, workers=8, timeout=3400)
     ctx.tlc_expect_violation("zero-value-control", "MC_Conc.tla", "MC_Conc.cfg", "fam_conc_zero.json", "NoPolicyWrite")
     race = vcheck_race.build_race()
     out = ctx.vh("race-stress", ["concstress", "-policies", "8" if q else "60", "-inputs", "30" if q else "60", "-repeat", "6" if q else "30"],
                  binary=race, timeout=3400, race=True)
-    return dict(rule=("TLC explores every interleaving (token granularity) of K calls on one shared policy over fam_conc (UGC+comments, overlapping "
+    return dict(rule=("TLC explores every interleaving (token granularity) of 2 calls on one shared policy over fam_conc (UGC+comments, overlapping "
                       "element patterns and style rules, Strict) and checks SharedIsReadOnly, Deterministic, NoCarryOver; every complete "
                       "interleaving is replayed on the real code with the token hook as scheduler gate: outputs equal the sequential ones, "
                       "policy snapshot identical before and after, later calls unaffected; negative control: with a zero-value Policy{} "
